@@ -114,3 +114,70 @@ func ZZ_C08_drain() {
 	zzsym.Assert(e.store.height == W+uint64(n)+1, "production-resumes-once-da-accepted-everything")
 	zzsym.Reach("drained")
 }
+
+// ZZ_C08_outage_restart: a fresh chain (initial height 1..4, real NewManager)
+// produces blocks while nothing is submitted (DA outage from launch, or less
+// than one DA block time has passed) until the limit L in 1..2 refuses the
+// next step; the node is restarted (real NewManager on the durable image);
+// then the DA layer accepts: one header loop body and up to two data loop
+// bodies later production is no longer refused.
+func ZZ_C08_outage_restart() {
+	zzsym.FreezeClock()
+	I := zzsym.U64("I")
+	zzsym.Assume(I >= 1 && I <= 4)
+	L := uint64(1 + zzsym.Pick("L", 2))
+	e := zzNewEnv(I)
+	e.cfg.Node.MaxPendingHeadersAndData = L
+	da := &zzDA{height: 7}
+	e.da = da
+	ctx := context.Background()
+	mk := func() (*Manager, error) {
+		return NewManager(ctx, e.signer, e.cfg, e.gen, e.store, e.exec, e.seq, da, m0logger(), nil, nil, e.hb, e.db, NopMetrics(), 1, 1, DefaultManagerOptions())
+	}
+	m, err := mk()
+	zzsym.Assert(err == nil, "fresh-new-manager")
+	if err != nil {
+		return
+	}
+	ts := zzTimeNs("ts")
+	zzsym.Assume(ts >= e.gen.GenesisDAStartTime.UnixNano())
+	for i := uint64(0); i <= L; i++ {
+		a := zzSeqAnswer{txs: [][]byte{}, ts: zzsym.TimeOf(ts + int64(i))}
+		if zzsym.Bool("nonempty") {
+			a.txs = [][]byte{zzsym.BytesN("tx", 1)}
+		}
+		e.seq.script = append(e.seq.script, a)
+		zzsym.Assert(m.publishBlockInternal(ctx) == nil, "outage-production-step")
+	}
+	zzsym.Assert(e.store.height == I-1+L, "limit-reached-during-outage")
+	zzsym.Region("initial-height-above-one", I > 1)
+	if zzsym.Bool("restart") {
+		e.store = e.store.reopen()
+		m, err = mk()
+		zzsym.Assert(err == nil, "restart-new-manager")
+		if err != nil {
+			return
+		}
+	}
+	pend, err := m.pendingHeaders.getPendingHeaders(ctx)
+	zzsym.Assert(err == nil && uint64(len(pend)) == L, "outage-pending-headers")
+	if err != nil || len(pend) == 0 {
+		return
+	}
+	zzsym.Assert(m.submitHeadersToDA(ctx, pend) == nil, "outage-headers-accepted")
+	for tick := 0; tick < 2; tick++ {
+		if m.pendingData.isEmpty() {
+			break
+		}
+		sds, err := m.createSignedDataToSubmit(ctx)
+		zzsym.Assert(err == nil, "outage-signed-data")
+		if len(sds) > 0 {
+			zzsym.Assert(m.submitDataToDA(ctx, sds) == nil, "outage-data-accepted")
+		}
+	}
+	before := e.store.height
+	e.seq.script = append(e.seq.script, zzSeqAnswer{txs: [][]byte{{9}}, ts: zzsym.TimeOf(ts + int64(L) + 5)})
+	err = m.publishBlockInternal(ctx)
+	zzsym.Assert(err == nil && e.store.height == before+1, "production-resumes-after-outage-and-restart")
+	zzsym.Reach("resumed")
+}
